@@ -166,3 +166,98 @@ def i2m_mid_len(ps: 'Seq[YPair]', ka: str, n: int) -> bool:
 @lemma(induct='n', triggers=['i2m_pairs(ps, ka, va, n)'])
 def i2m_pairs_len(ps: 'Seq[YPair]', ka: str, va: 'PV', n: int) -> bool:
     return implies(0 <= n, len(i2m_pairs(ps, ka, va, n)) == n)
+
+
+# ---- seq_attribute_to_map (C15): [ {ka: k1, ...rest1}, ... ] ->
+# {k1: {...rest1}, ...}; an item left with the single pair (value_attribute:
+# x) becomes x (the short form)
+
+def with_items(n: 'YNode', xs: 'Seq[YNode]') -> 'YNode':
+    return N(n.kind, n.tag, n.val, xs, n.pairs, n.smark, n.emark)
+
+
+def removed(v: 'YNode', a: str) -> 'YNode':
+    """the mapping v without its first pair keyed a (ordered-dict removal)"""
+    return with_pairs(v, v.pairs[:at(v, a)] + v.pairs[at(v, a) + 1:])
+
+
+def s2m_item_ok(it: 'YNode', ka: str) -> bool:
+    """a mapping with exactly one key attribute, whose value is a string"""
+    return (it.kind == MAP and cnt(it.pairs, ka, len(it.pairs)) == 1
+            and first_value(it, ka).kind == SCALAR
+            and first_value(it, ka).tag == STR_TAG)
+
+
+@spec
+def s2m_valid(xs: 'Seq[YNode]', ka: str, i: int) -> bool:
+    if i <= 0:
+        return True
+    return s2m_valid(xs, ka, i - 1) and s2m_item_ok(xs[i - 1], ka)
+
+
+@spec
+def s2m_seen(xs: 'Seq[YNode]', ka: str, i: int) -> 'Set[str]':
+    """the key strings of the first i items"""
+    if i <= 0:
+        return strs_none()
+    return strs_add(s2m_seen(xs, ka, i - 1), first_value(xs[i - 1], ka).val)
+
+
+@spec
+def s2m_distinct(xs: 'Seq[YNode]', ka: str, i: int) -> bool:
+    """the key strings of the first i items are pairwise different"""
+    if i <= 0:
+        return True
+    return (s2m_distinct(xs, ka, i - 1)
+            and not in_strs(first_value(xs[i - 1], ka).val,
+                            s2m_seen(xs, ka, i - 1)))
+
+
+def s2m_val(it: 'YNode', ka: str, va: 'PV') -> 'YNode':
+    if (pv_is_str(va) and len(removed(it, ka).pairs) == 1
+            and has(removed(it, ka), pv_str(va))):
+        return first_value(removed(it, ka), pv_str(va))
+    return removed(it, ka)
+
+
+@spec(local=('xs', 'i'))
+def s2m_pairs(xs: 'Seq[YNode]', ka: str, va: 'PV', i: int) -> 'Seq[YPair]':
+    if i <= 0:
+        return empty_pairs()
+    return s2m_pairs(xs, ka, va, i - 1) + [
+        P(first_value(xs[i - 1], ka), s2m_val(xs[i - 1], ka, va))]
+
+
+@spec(local=('xs', 'i'))
+def s2m_mid(xs: 'Seq[YNode]', ka: str, i: int) -> 'Seq[YNode]':
+    """the old item list while the second loop runs: the first i items have
+    lost their key attribute in place"""
+    if i <= 0:
+        return empty_nodes()
+    return s2m_mid(xs, ka, i - 1) + [removed(xs[i - 1], ka)]
+
+
+@lemma(induct='n', triggers=['s2m_mid(xs, ka, n)'])
+def s2m_mid_len(xs: 'Seq[YNode]', ka: str, n: int) -> bool:
+    return implies(0 <= n, len(s2m_mid(xs, ka, n)) == n)
+
+
+@lemma(induct='n', triggers=['s2m_valid(xs, ka, n)', 's2m_valid(xs, ka, i)'])
+def s2m_valid_member(xs: 'Seq[YNode]', ka: str, i: int, n: int) -> bool:
+    return implies(0 <= i and i < n and s2m_valid(xs, ka, n),
+                   s2m_item_ok(xs[i], ka) and s2m_valid(xs, ka, i))
+
+
+@spec
+def upd_value(ps: 'Seq[YPair]', j: int, v: 'YNode') -> 'Seq[YPair]':
+    """ps with the value of pair j replaced by v (key node kept)"""
+    return seq_update(ps, j, P(ps[j].k, v))
+
+
+@lemma(induct='n', triggers=['idx_of(qs, a, n)', 'upd_value(ps, j, v)'])
+def idx_of_upd_value(ps: 'Seq[YPair]', qs: 'Seq[YPair]', j: int, v: 'YNode',
+                     a: str, n: int) -> bool:
+    """lookups by key do not depend on the values"""
+    return implies(qs == upd_value(ps, j, v) and 0 <= j and j < len(ps)
+                   and n <= len(ps),
+                   idx_of(qs, a, n) == idx_of(ps, a, n))
